@@ -1,5 +1,4 @@
-import OrdModel.Proofs.IndexRunesupplyEdicts
-import OrdModel.Proofs.IndexRunesupplySpec
+import OrdModel.Proofs.IndexRunesupplyTx
 /-!
 # C09 — Edicts, pointers and cenotaphs allocate runes exactly as the protocol describes
 
@@ -33,6 +32,39 @@ example : ∃ tx etched edicts un alloc un' alloc', applyEdicts tx etched edicts
       | 1 => decide
       | 2 => decide
       | n + 3 => simp [rowAt, keys]⟩, rfl, by decide⟩
+
+/-- **C09, one transaction: the model of `index_runes` refines the documented allocation.**
+For every index state, block, transaction (any inputs, outputs, OP_RETURN positions, artifact) and
+block-burn accumulator: whenever `indexRunesTx` returns (no `Lot` overflow panic; a malformed
+runestone — edict output > n, pointer ≥ n — is a panic branch and therefore excluded too), then
+for EVERY rune id `r`
+* each output `v` of the transaction holds exactly `(Spec.allocate …).out v` of `r`
+  (a missing row = 0; equality of maps, i.e. up to association-list order), and
+* the block's burn accumulator grows by exactly `(Spec.allocate …).burned`,
+where `Spec.allocate` is applied to the output kinds, the protocol message of the artifact, the id
+of the rune etched here (model's `etched`, C11) and
+`u0 = inputs' balances of r + open mint (model's `mint`, C10) + premine (0 in a cenotaph)`
+(`txSpec`, `txUnallocated`).  Hypotheses: the transaction's txid has no rows yet (no duplicate
+txid), and the accumulator has no repeated id (it is only built by `addAllTo`; re-established
+by the conclusion). -/
+theorem c09_refines (st : State) (blk : Block) (i : Nat) (tx : Tx) (bb : Balances)
+    (st' : State) (bb' : Balances) (evs : List Event)
+    (hok : indexRunesTx st blk i tx bb = .ok (st', bb', evs))
+    (hfresh : ∀ v, AL.get st.balances ⟨tx.txid, v⟩ = none) (hbb : (keys bb).Nodup) (r : RuneId) :
+    (∀ v, v < tx.outputs.length →
+      lk ((AL.get st'.balances ⟨tx.txid, v⟩).getD []) r = (txSpec st blk i tx r).out v) ∧
+    lk bb' r = lk bb r + (txSpec st blk i tx r).burned ∧ (keys bb').Nodup :=
+  indexRunesTx_refines hok hfresh hbb r
+
+/-- non-vacuity: a transfer of 9 units of rune 2:1 with the edict "all to every output" over two
+eligible outputs and one OP_RETURN; the model returns and the outputs hold 5 and 4. -/
+example :
+    let tx : Tx := ⟨7, [⟨⟨5, 0⟩, false, none, []⟩], [⟨0, false, []⟩, ⟨0, true, []⟩, ⟨0, false, []⟩], [],
+      some (.runestone [⟨⟨2, 1⟩, 0, 3⟩] none none none), 0⟩
+    let st : State := { balances := [(⟨5, 0⟩, [(⟨2, 1⟩, 9)])] }
+    ∃ st' bb' evs, indexRunesTx st ⟨3, 0, 0, 0, []⟩ 1 tx [] = .ok (st', bb', evs) ∧
+      (txSpec st ⟨3, 0, 0, 0, []⟩ 1 tx ⟨2, 1⟩).out 0 = 5 ∧ (txSpec st ⟨3, 0, 0, 0, []⟩ 1 tx ⟨2, 1⟩).out 2 = 4 :=
+  ⟨_, _, _, rfl, by decide, by decide⟩
 
 /-- Rule "each edict … capped by the unallocated balance; amount zero = all remaining" for an
 edict naming a single output. -/
